@@ -539,9 +539,10 @@ class CircuitTemplate(AbstractBaseTemplate):
             columns = MultiIndex.from_tuples(columns)
         results = DataFrame(data=np.asarray(data).T, columns=columns, index=time_vec)
 
-        # store current state of the network
-        for key in net.compute_graph.state_vars:
-            self._state_var_values[key] = net.compute_graph.get_var(key).value
+        # store current state of the network (a call with in_place=False leaves the template as it was)
+        if in_place:
+            for key in net.compute_graph.state_vars:
+                self._state_var_values[key] = net.compute_graph.get_var(key).value
 
         # clean up
         if clear:
@@ -624,10 +625,13 @@ class CircuitTemplate(AbstractBaseTemplate):
         # generate the run function
         func, args, arg_names, state_var_indices = net._ir.get_run_func(func_name=func_name, step_size=step_size,
                                                                         **kwargs)
-        self._state_var_indices = state_var_indices
+        # state bookkeeping is only recorded on the template for in-place calls (a call with in_place=False leaves the
+        # template as it was; stale entries here would be inherited by the working copies of later calls)
+        if in_place:
+            self._state_var_indices = state_var_indices
 
         # set current network state if it was empty before
-        if not self.state:
+        if in_place and not self.state:
             for key in net.compute_graph.state_vars:
                 self._state_var_values[key] = net.compute_graph.get_var(key).value
 
@@ -717,10 +721,13 @@ class CircuitTemplate(AbstractBaseTemplate):
         func, args, arg_names, state_var_indices = net._ir.get_jacobian_func(func_name=func_name,
                                                                                step_size=step_size,
                                                                                sparse=sparse, **kwargs)
-        self._state_var_indices = state_var_indices
+        # state bookkeeping is only recorded on the template for in-place calls (a call with in_place=False leaves the
+        # template as it was; stale entries here would be inherited by the working copies of later calls)
+        if in_place:
+            self._state_var_indices = state_var_indices
 
         # set current network state if it was empty before
-        if not self.state:
+        if in_place and not self.state:
             for key in net.compute_graph.state_vars:
                 self._state_var_values[key] = net.compute_graph.get_var(key).value
 
